@@ -263,28 +263,20 @@ class STIXPatternVisitorForSTIX2():
         children = self.visitChildren(ctx)
         flat_list = collapse_lists(children[2:])
         property_path = []
-        i = 0
-        while i < len(flat_list):
-            current = flat_list[i]
-            if i == len(flat_list)-1:
-                property_path.append(current)
-                break
-            next = flat_list[i+1]
-            if isinstance(next, TerminalNode):
-                property_path.append(self.instantiate("ListObjectPathComponent", current.property_name, next.getText()))
-                i += 2
-            elif isinstance(next, IntegerConstant):
-                property_path.append(
-                    self.instantiate(
-                        "ListObjectPathComponent",
-                        current.property_name if isinstance(current, BasicObjectPathComponent) else str(current),
-                        next.value,
-                    ),
-                )
-                i += 2
+        for current in flat_list:
+            is_star = isinstance(current, TerminalNode)
+            if is_star or isinstance(current, IntegerConstant):
+                # an index step: attach it to the step before it
+                index = current.getText() if is_star else current.value
+                prev = property_path.pop()
+                if isinstance(prev, BasicObjectPathComponent):
+                    name = prev.property_name
+                else:
+                    # a quoted step ('c'[*]) or another index (b[0][1])
+                    name = str(prev)
+                property_path.append(self.instantiate("ListObjectPathComponent", name, index))
             else:
                 property_path.append(current)
-                i += 1
         return self.instantiate("ObjectPath", children[0].getText(), property_path)
 
     # Visit a parse tree produced by STIXPatternParser#objectType.
